@@ -298,6 +298,35 @@ def m_property_dropped(r, b):
     return "last property of instance %s.%s dropped" % (i.parent.name, i.name)
 
 
+def m_property_field_dropped(r, b):
+    """one FIELD of one property entry is missing in the copy (the original name of a renamed property, or its value)"""
+    insts = [c for d in defs_of(b) for c in d.children if len(c.get("EDIF.properties", []) or []) >= 1]
+    r.shuffle(insts)
+    for i in insts:
+        props = [dict(x) for x in i["EDIF.properties"]]
+        cands = [(k_, f_) for k_, pr in enumerate(props) for f_ in ("original_identifier", "value") if f_ in pr]
+        if cands:
+            k_, f_ = r.choice(cands)
+            del props[k_][f_]
+            i["EDIF.properties"] = props
+            return "field %r of property %d of instance %s.%s missing in the copy" % (f_, k_, i.parent.name, i.name)
+    return None
+
+
+def m_property_field_added(r, b):
+    insts = [c for d in defs_of(b) for c in d.children if len(c.get("EDIF.properties", []) or []) >= 1]
+    if not insts:
+        return None
+    i = r.choice(insts)
+    props = [dict(x) for x in i["EDIF.properties"]]
+    k_ = r.randrange(len(props))
+    if "original_identifier" in props[k_]:
+        return None
+    props[k_]["original_identifier"] = props[k_]["identifier"] + ".orig"
+    i["EDIF.properties"] = props
+    return "property %d of instance %s.%s has an original name only in the copy" % (k_, i.parent.name, i.name)
+
+
 def m_property_appended(r, b):
     insts = [c for d in defs_of(b) for c in d.children if len(c.get("EDIF.properties", []) or []) >= 1]
     if not insts:
@@ -397,7 +426,7 @@ def m_add_instance(r, b):
 
 MUTATIONS = [m_port_direction, m_port_wider, m_port_narrower, m_port_arrayness, m_cable_wider, m_cable_narrower,
              m_outer_other_instance, m_outer_other_port, m_outer_other_bit, m_inner_other_port, m_inner_other_bit,
-             m_repoint, m_repoint_twin, m_property_value, m_property_added, m_property_dropped, m_property_appended, m_drop_library, m_add_library, m_drop_definition,
+             m_repoint, m_repoint_twin, m_property_value, m_property_added, m_property_dropped, m_property_field_dropped, m_property_field_added, m_property_appended, m_drop_library, m_add_library, m_drop_definition,
              m_add_definition, m_drop_port, m_add_port, m_drop_cable, m_add_cable, m_drop_instance, m_add_instance]
 
 
